@@ -54,9 +54,9 @@ def gen(tier, seed):
                     args, timeout=600, viol="coarse-graining changes the physical amounts when state / network / space use other units than the system")
         add("ucg_%s" % tag, "c16-uncoarsegrain", "uncoarsegrain_ok(%r, %s, %r)" % (shape, mp, envs), ["pre: " + pre],
             "un-coarse-graining spreads each group value evenly (totals preserved, members equal, dropped cells 0) (%s)" % desc, args, timeout=600)
-    L.extend(["def h_simulate_map(k: int, mode: int, tu: int) -> bool:", '    """', "    pre: 0 <= k <= 3 and 0 <= mode <= 1 and 0 <= tu <= 2", "    post: _", '    """',
+    L.extend(["def h_simulate_map(k: int, mode: int, tu: int) -> bool:", '    """', "    pre: 0 <= k <= 3 and 0 <= mode <= 1 and 0 <= tu <= 3", "    post: _", '    """',
               "    return simulate_with_map([(2, 1, 1), (2, 2, 1), (1, 2, 2), (3, 1, 1)][k], mode, tu)", ""])
-    conds.append({"fn": "h_simulate_map", "what": "simulate(..., cgmap=...) on the real build: the identity map reproduces the plain Euler run sample by sample; a pairing map returns a trajectory of the original shape with the same per-species totals at every sample (4 grid shapes; sample times as bare numbers, in ms and in min under a script in seconds)",
+    conds.append({"fn": "h_simulate_map", "what": "simulate(..., cgmap=...) on the real build: the identity map reproduces the plain Euler run sample by sample; a pairing map returns a trajectory of the original shape with the same per-species totals at every sample (4 grid shapes; sample times as bare numbers, in ms and in min under a script in seconds, and two requested times closer than the time step)",
                   "sig": "c16-simulate-cgmap", "structure": "coarse-graining", "viol": "simulating through a coarse-graining map does not reproduce / conserve what the plain simulation gives"})
     return "\n".join(L), conds
 
